@@ -75,6 +75,14 @@ def g(s, i):
     return s[i] if s is not None and i < len(s) else None
 
 
+def echo(v):
+    """a source value as it can appear in the acknowledgement: X12 has no escape mechanism, so the
+    acknowledgement's own delimiters cannot be carried (C06); everything else is kept character for character"""
+    if v is None:
+        return v
+    return ''.join(c for c in v if c not in '~*:^\r\n')
+
+
 def judge(text, o):
     """-> list of (key, msg); o = pipe.Obs of a completed validation"""
     v = []
@@ -116,10 +124,10 @@ def judge(text, o):
     last_isa = src[-1]['isa']
     last_gs = src_groups[-1]['gs']
     a = ack['isa']
-    if a is None or len(a) < 9 or len(last_isa) < 8 or a[6].strip() != last_isa[7].strip() or a[8].strip() != last_isa[5].strip() or a[5] != last_isa[6] or a[7] != last_isa[4]:
+    if a is None or len(a) < 9 or len(last_isa) < 8 or a[6].strip() != echo(last_isa[7]).strip() or a[8].strip() != echo(last_isa[5]).strip() or a[5].strip() != echo(last_isa[6]).strip() or a[7].strip() != echo(last_isa[4]).strip():
         v.append(('C05|ack|not addressed back (ISA)', 'ack ISA %r vs source ISA05-08 %r' % (a[5:9] if a else None, last_isa[4:8])))
     ags = ack['gs']
-    if ags is None or len(last_gs) < 3 or g(ags, 2) != last_gs[2].rstrip() or g(ags, 3) != last_gs[1].rstrip():
+    if ags is None or len(last_gs) < 3 or g(ags, 2) != echo(last_gs[2]).rstrip() or g(ags, 3) != echo(last_gs[1]).rstrip():
         v.append(('C05|ack|not addressed back (GS)', 'ack GS02/03 %r vs source GS02/03 %r' % (ags[2:4] if ags else None, last_gs[1:3])))
     # one AK1 per source group, in order
     if len(ack['groups']) != len(src_groups):
@@ -128,7 +136,7 @@ def judge(text, o):
     if len(tree_groups) != len(src_groups):
         return v            # the tree itself lost groups: not an ack matter
     for k, (sg, ag, (ii, gi, tg)) in enumerate(zip(src_groups, ack['groups'], tree_groups)):
-        if g(ag['ak1'], 1) != g(sg['gs'], 0) or g(ag['ak1'], 2) != g(sg['gs'], 5):
+        if g(ag['ak1'], 1) != echo(g(sg['gs'], 0)) or g(ag['ak1'], 2) != echo(g(sg['gs'], 5)):
             v.append(('C05|ack|AK1 does not name the group', 'AK1 %r vs GS01/GS06 %r/%r' % (ag['ak1'], g(sg['gs'], 0), g(sg['gs'], 5))))
         if len(ag['sets']) != len(sg['st']) and all(ss['st01'] and ss['st02'] for ss in sg['st']):
             v.append(('C05|ack|set count', 'group %d: source has %d sets, acknowledgement names %d' % (k, len(sg['st']), len(ag['sets']))))
@@ -140,7 +148,7 @@ def judge(text, o):
         if any(not ss['st01'] or not ss['st02'] for ss in sg['st']):
             continue        # a header without identifier / control number: whether it is a 'set received' is left open
         for (ss, as_, ts) in zip(sg['st'], ag['sets'], tg['st']):
-            if g(as_['ak2'], 1) != ss['st01'] or g(as_['ak2'], 2) != (ss['st02'] or '').strip():
+            if g(as_['ak2'], 1) != echo(ss['st01']) or g(as_['ak2'], 2) != echo(ss['st02'] or '').strip():
                 v.append(('C05|ack|AK2 does not name the set', 'AK2 %r vs ST01/ST02 %r/%r' % (as_['ak2'], ss['st01'], ss['st02'])))
             ne = set_errors(ts)
             code = g(as_['ak5'], 1)
@@ -243,10 +251,10 @@ def items(tier_thorough, family):
 def work(shard):
     family, part, nparts, thorough = shard
     P = core.Part()
-    for i, it in enumerate(items(thorough, family)):
+    for i, it in enumerate(ITEMS[family]):
         if i % nparts != part:
             continue
-        text = corpus.text_of(it)
+        text = it[1]
         P.n += 1
         v, skip = run_text(it[0], text)
         if skip:
@@ -265,11 +273,23 @@ def evaluate(case):
     return v or []
 
 
+ITEMS = {}
+
+
+def materialise(thorough, families):
+    """enumerate every family once in the parent; the forked workers index into the lists"""
+    for fam in families:
+        if fam not in ITEMS:
+            ITEMS[fam] = [(it[0], corpus.text_of(it), {}) for it in items(thorough, fam)]
+
+
 def run(R):
     shards = []
     for fam, n in (('valid', 16), ('fault', 32), ('shape', 16), ('suite', 4), ('mutant', 48)):
         for p in range(n):
             shards.append((fam, p, n, R.thorough))
+    materialise(R.thorough, sorted(set(s[0] for s in shards)))
+    R.cov['documents_per_family'] = dict((k, len(v)) for k, v in ITEMS.items())
     R.pmap(work, shards)
     R.bounds = {'valid': 'per map: min, all, all-filled, 2 sets/groups/interchanges, last codes' + (' + every d<=1 plan' if R.thorough else ''),
                 'fault': 'per map one target per C03 fault kind' + (' / per definition signature' if R.thorough else ''),
